@@ -295,3 +295,141 @@ def in_model(export):
         return True
     return all(ok(v) for x in export["nodes"] for _, v in x["fields"]) and all(
         a["default"] is None or ok(a["default"]) for c in export["classes"] for a in c["args"])
+
+
+# ------------------------------------------------------------------ signature-neutral edits (C02)
+def _kwd(nd):
+    return {k: v for k, v in nd["kw"]}
+
+
+def _meta_of(desc, i):
+    """last meta flag set on node i by the build actions"""
+    f = None
+    for a in desc["actions"]:
+        if a["a"] == "meta" and a["n"] == i:
+            f = a["flag"]
+    return f
+
+
+def _is_task_of_someone(desc, i):
+    return desc["nodes"][i]["cls"] in TASKS
+
+
+def neutral_edit(rng, desc, g):
+    """Returns (edited description, kind) for one random documented-neutral edit, or None.
+    Node indices of the original are preserved (new nodes are appended)."""
+    d = copy.deepcopy(desc)
+    n = len(d["nodes"])
+    kinds = ["ignored-scalar", "ignored-config", "explicit-default", "tag", "inside-meta", "class-extension",
+             "meta-member", "optional-none"]
+    rng.shuffle(kinds)
+    for kind in kinds:
+        cands = list(range(n))
+        rng.shuffle(cands)
+        for i in cands:
+            nd = d["nodes"][i]
+            cls = nd["cls"]
+            kw = _kwd(nd)
+            if kind == "ignored-scalar":
+                slots = [s for s in IGNORED.get(cls, ()) if SLOTS[cls][s] in ("int", "str", "opath", "olpath")]
+                if not slots:
+                    continue
+                s = rng.choice(slots)
+                k = SLOTS[cls][s]
+                if k == "int":
+                    v = vint(rng.choice([x for x in [0, 1, 5, 9, -4] if kw.get(s) != vint(x)]))
+                elif k == "str":
+                    v = vstr(rng.choice([x for x in ["q", "meta2", ""] if kw.get(s) != vstr(x)]))
+                elif k == "opath":
+                    v = {"t": "path", "v": rng.choice(["/other/p", "q/r"])}
+                else:
+                    v = {"t": "list", "v": [{"t": "path", "v": "/l/p"}]}
+                nd["kw"] = [[a, b] for a, b in nd["kw"] if a != s] + [[s, v]]
+                return d, kind
+            if kind == "ignored-config":
+                slots = [s for s in IGNORED.get(cls, ()) if SLOTS[cls][s] in ("ocfg", "lcfg")]
+                if not slots:
+                    continue
+                # pre-tasks reachable through ANY parameter are part of the full identifier, so the slot must
+                # not currently hold a configuration (removing it could remove a reachable pre-task)
+                assigned = {a["name"] for a in d["actions"] if a["a"] == "set" and a["n"] == i}
+                slots = [s for s in slots if s not in assigned and kw.get(s, NONE) in (NONE, {"t": "list", "v": []})]
+                if not slots:
+                    continue
+                s = rng.choice(slots)
+                # a fresh leaf (no pre-task below it), appended after the original nodes
+                d["nodes"].append(dict(cls="Leaf", kw=[["i", vint(rng.choice([11, 12, 13]))]]))
+                newv = vref(len(d["nodes"]) - 1)
+                if SLOTS[cls][s] == "lcfg":
+                    newv = {"t": "list", "v": [newv]}
+                # assigned after construction (the new node has a larger index)
+                d["actions"].insert(0, dict(a="set", n=i, name=s, v=newv))
+                return d, kind
+            if kind == "explicit-default":
+                slots = [s for (c2, s) in DEFAULTS if c2 == cls]
+                if not slots:
+                    continue
+                s = rng.choice(slots)
+                dv = DEFAULTS[(cls, s)]
+                k = SLOTS[cls][s]
+                val = (vint(dv) if k == "int" else vfloat(dv) if k == "float" else vstr(dv) if k == "str"
+                       else {"t": "bool", "v": dv} if k == "bool" else {"t": "enum", "e": "Color", "m": dv})
+                if s in kw:
+                    if kw[s] != val:
+                        continue
+                    nd["kw"] = [[a, b] for a, b in nd["kw"] if a != s]       # leave it unset
+                else:
+                    nd["kw"].append([s, val])                                   # set it to its default
+                return d, kind
+            if kind == "optional-none":
+                slots = [s for s, k in SLOTS[cls].items() if k.startswith("o") and s not in IGNORED.get(cls, ())]
+                slots = [s for s in slots if s not in kw or kw[s] == NONE]
+                if not slots:
+                    continue
+                s = rng.choice(slots)
+                if s in kw:
+                    nd["kw"] = [[a, b] for a, b in nd["kw"] if a != s]
+                else:
+                    nd["kw"].append([s, NONE])
+                return d, kind
+            if kind == "tag":
+                d["actions"].insert(0, dict(a="tag", n=i, k=rng.choice(["t1", "lr"]), v=rng.choice([1, 2, "v"])))
+                return d, kind
+            if kind == "inside-meta":
+                if _meta_of(d, i) is not True or cls in TASKS or cls in LIGHT:
+                    continue
+                ints = [s for s, k in SLOTS[cls].items() if k in ("int", "int!")]
+                if not ints:
+                    continue
+                s = rng.choice(ints)
+                old = kw.get(s, vint(0))
+                v = vint(rng.choice([x for x in [21, 22, 23] if vint(x) != old]))
+                nd["kw"] = [[a, b] for a, b in nd["kw"] if a != s] + [[s, v]]
+                return d, kind + ":%d" % i
+            if kind == "class-extension":
+                if cls != "V1":
+                    continue
+                nd["cls"] = "V2"
+                if rng.random() < 0.5:
+                    nd["kw"].append(["z", vstr(rng.choice(["m1", "m2"]))])
+                if rng.random() < 0.3:
+                    nd["kw"].append(["y", vint(3)])
+                return d, kind
+            if kind == "meta-member":
+                if cls != "Bag":
+                    continue
+                # a new configuration flagged meta, added as list element / dict value
+                d["nodes"].append(dict(cls="Leaf", kw=[["i", vint(rng.choice([31, 32]))]]))
+                j = len(d["nodes"]) - 1
+                d["actions"].insert(0, dict(a="meta", n=j, flag=True))
+                if rng.random() < 0.5:
+                    cur = copy.deepcopy(kw.get("lc", {"t": "list", "v": []}))
+                    cur["v"].insert(rng.randrange(len(cur["v"]) + 1), vref(j))
+                    d["actions"].insert(1, dict(a="set", n=i, name="lc", v=cur))
+                else:
+                    cur = copy.deepcopy(kw.get("dc", {"t": "dict", "v": []}))
+                    key = rng.choice([k for k in ["m", "mm", "b2"] if k not in [x[0] for x in cur["v"]]])
+                    cur["v"].insert(rng.randrange(len(cur["v"]) + 1), [key, vref(j)])
+                    d["actions"].insert(1, dict(a="set", n=i, name="dc", v=cur))
+                return d, kind
+    return None
